@@ -240,7 +240,13 @@ theorem parseAtom_formatParam (k v : Bytes) (hk : Clean 0x3D k) (hks : pyStrip k
   by_cases he : v.isEmpty = true
   · have : v = [] := by simpa using he
     subst this
-    simp [parseAtom, splitOnce1_clean 0x3D k hk, hks]
+    simp only [List.isEmpty_nil, if_true]
+    have e : k ++ [0x3D, 0x22, 0x22] = k ++ 0x3D :: [0x22, 0x22] := by simp
+    unfold parseAtom
+    rw [e, splitOnce1_append 0x3D k _ hk]
+    simp only [hks]
+    have : stripQuotes (pyStrip [0x22, 0x22]) = [] := by decide
+    rw [this]
   · rw [if_neg he]
     by_cases hts : v.any isTSpecial = true
     · -- quoted
@@ -360,7 +366,17 @@ theorem formatParam_tight_clean (k v : Bytes) (hk : KeyOK k) (hv : ValOK v) :
   obtain ⟨a, t, e1, ha, u, z, e2, hz⟩ := hk.tight
   unfold formatParam
   by_cases he : v.isEmpty = true
-  · rw [if_pos he]; exact ⟨hk.tight, hk.nocomma⟩
+  · rw [if_pos he]
+    have t1 : Tight (k ++ [0x3D, 0x22, 0x22]) :=
+      ⟨a, t ++ [0x3D, 0x22, 0x22], (by simp [e1]), ha, k ++ [0x3D, 0x22], 0x22, (by simp), (by decide)⟩
+    refine ⟨t1, ?_⟩
+    intro b hb
+    simp only [List.mem_append, List.mem_cons, List.mem_nil_iff, or_false] at hb
+    rcases hb with hb | hb | hb | hb
+    · exact hk.nocomma b hb
+    · subst hb; decide
+    · subst hb; decide
+    · subst hb; decide
   · rw [if_neg he]
     have hne : v ≠ [] := by simpa using he
     by_cases hts : v.any isTSpecial = true
